@@ -387,6 +387,34 @@ func runAliasCensus(c *Ctx, r *Rep) {
 			r.okTrivial("fresh|"+id, fn.Pos(), "no result shares storage with a parameter")
 		}
 	}
+	// appending onto the storage of an immutable operand writes into spare capacity other values may share
+	nApp := 0
+	for _, fn := range a.fns {
+		if !aliasScope(c, fn) {
+			continue
+		}
+		for _, b := range fn.Blocks {
+			for _, in := range b.Instrs {
+				call, ok := in.(*ssa.Call)
+				if !ok {
+					continue
+				}
+				bi, ok := call.Common().Value.(*ssa.Builtin)
+				if !ok || bi.Name() != "append" || len(call.Common().Args) == 0 {
+					continue
+				}
+				nApp++
+				for at := range a.t[call.Common().Args[0]] {
+					if at.fn == fn && (at.kind == "Tuple" || at.kind == "Bytes") {
+						id := ln.id(fn)
+						r.bad(fmt.Sprintf("append|%s|%s", id, paramName(fn, at.idx)), call.Pos(),
+							"%s appends onto the storage of its %s operand %s: the operand is immutable in Python but append writes into the spare capacity of its array, which an earlier result of the same kind may share (x += y; z = x; x += a; z += b makes x end in b)", id, at.kind, paramName(fn, at.idx))
+					}
+				}
+			}
+		}
+	}
+	r.ok("append|census", token.NoPos, "%d append calls examined: none extends the storage of an immutable (tuple/bytes) operand in place", nApp)
 	sfinds, nsites := stackViewFindings(c, a, ln)
 	for _, f := range sfinds {
 		r.bad("stack|"+f.key, f.pos, "%s", f.what)
